@@ -814,7 +814,7 @@ func main() {
 	r.Add("distinct_nontrivial", int64(len(res.Sets["shapes"])))
 	r.Set("type_alphabet", len(T))
 	r.Set("exhaustive", len(res.Abnormal) == 0)
-	r.Set("rule", "all signatures with <= 2 parameters over a 20-type alphabet (8 basic kinds, host structs incl. embedded/pointer/slice fields, pointer, array, slices, map, error, interface{}, two function types) x {0, 1 result; 2 results on the (T,error)/(T,T) diagonals - thorough: all pairs} x 3 value patterns (zero values, non-zero, alternating); variadic variants; arity 3-4 / 3 results over 6 class representatives; both directions with recorders on both sides; argument-form family F (E2 twins): 13 value types x 22 ways of writing the argument of a host call (variable, literal, call, multi-result forwarding, field, element, method / closure result, assertion, dereference, receive, and the same with the static type of a script-defined interface) x typed host parameters (int, string, []int, error, func, *int, interface{}, ...interface{}, (interface{}, int)) x 4 statement forms; family G (E2 twins): bool-returning variadic host functions x 14 ways of writing the variadic values (listed, spread of a variable / literal / call result / nil / empty slice, a slice passed as one value) x 11 positions of the call (if / for conditions, negation, && and || operands, switch case, assignment, return, argument, defer); 12 special scenarios (mutation through references, callbacks crossing twice, re-entrant and concurrent activations of one exported wrapper, returned closures, interpreted types as fmt.Stringer/error, shared variables); distinct_nontrivial = distinct signature shapes")
+	r.Set("rule", "all signatures with <= 2 parameters over a 20-type alphabet (8 basic kinds, host structs incl. embedded/pointer/slice fields, pointer, array, slices, map, error, interface{}, two function types) x {0, 1 result; 2 results on the (T,error)/(T,T) diagonals - thorough: all pairs} x 3 value patterns (zero values, non-zero, alternating); variadic variants; arity 3-4 / 3 results over 6 class representatives; both directions with recorders on both sides; argument-form family F (E2 twins): 13 value types x 22 ways of writing the argument of a host call (variable, literal, call, multi-result forwarding, field, element, method / closure result, assertion, dereference, receive, and the same with the static type of a script-defined interface) x typed host parameters (int, string, []int, error, func, *int, interface{}, ...interface{}, (interface{}, int)) x 4 statement forms; family G (E2 twins): bool-returning variadic host functions x 14 ways of writing the variadic values (listed, spread of a variable / literal / call result / nil / empty slice, a slice passed as one value) x 11 positions of the call (if / for conditions, negation, && and || operands, switch case, assignment, return, argument, defer); 12 special scenarios (mutation through references, callbacks crossing twice, re-entrant and concurrent activations of one exported wrapper, returned closures, interpreted types as fmt.Stringer/error, shared variables); distinct_nontrivial = distinct signature shapes; family R (E2 twins): how the results of a host call are stored: 5 host functions (1-3 results, error / struct results) x 17 destination forms (define, assign, redeclare, blanks, dereference, field / element / map) x what else refers to the destination (pointer taken before, reading / writing closure, per-iteration closures) x local / package-level variables")
 	r.Assumptions = []string{"values are compared through an address-free rendering; function values by their behaviour on a fixed argument", "host functions of arbitrary signature are built with reflect.FuncOf/MakeFunc"}
 	for _, i := range []int{5, len(ks) / 2, len(ks) - 1} {
 		r.Sample(ks[i].desc())
